@@ -140,10 +140,10 @@ class MarkerPatch(Patch):
 
     def __init__(self, constraints):
         super().__init__(constraints)
-        self.seen = None
+        self.seen = {}  # id(block) -> InsertionContext: one Patch object may be inserted at several sites
 
     def get_asm(self, insertion_context, *args):
-        self.seen = insertion_context
+        self.seen[id(insertion_context.block)] = insertion_context
         self.extra_args = args
         return "nop"
 
@@ -164,13 +164,20 @@ def _generate(cfgs):
     Returns a list of (code, relocs, reported stack_adjustment, [scratch names])."""
     abi = cfgs[0]["abi"]
     per = {w: sum(1 for c in cfgs if c["where"] == w) for w in WHERES}
-    world = World(abi, n_each=max(1, max(per.values())))
+    # the non-leaf targets come first in address order and configurations that differ only in the
+    # position share ONE Patch object: whatever the rewriter derives per patch must still be right
+    # for every site the patch is inserted at
+    world = World(abi, n_each=max(1, max(per.values())), order=("nonleaf", "leaf", "nofunc"))
     used = {w: 0 for w in WHERES}
     patches = []
+    shared = {}
     for c in cfgs:
         b = world.blocks[c["where"]][used[c["where"]]]
         used[c["where"]] += 1
-        p = MarkerPatch(_constraints(c))
+        key = (c["flags"], c["align"], c["pcs"], c["scratch"], tuple(c["clob"]), tuple(c["reads"]))
+        p = shared.get(key)
+        if p is None:
+            p = shared[key] = MarkerPatch(_constraints(c))
         world.ctx.insert_at(b, 0, p)
         patches.append((p, b))
     world.ctx.apply()
@@ -179,13 +186,14 @@ def _generate(cfgs):
         raise HarnessError("unexpected leafFunctions table %r" % leaf)
     out = []
     for (p, b), c in zip(patches, cfgs):
-        if p.seen is None:
+        seen = p.seen.get(id(b))
+        if seen is None:
             raise HarnessError("patch was not invoked")
-        fn = p.seen.function.get_name() if p.seen.function else None
+        fn = seen.function.get_name() if seen.function else None
         if fn != {"leaf": "leaf_fn", "nonleaf": "nonleaf_fn", "nofunc": None}[c["where"]]:
             raise HarnessError("patch landed in %r, wanted %s" % (fn, c["where"]))
         code, relocs = world.inserted(b)
-        out.append((code, relocs, p.seen.stack_adjustment, [r.name for r in p.seen.scratch_registers]))
+        out.append((code, relocs, seen.stack_adjustment, [r.name for r in seen.scratch_registers]))
     return out
 
 
@@ -384,10 +392,15 @@ def run_task(task):
         except Exception:
             gens = [_single(c) for c in cfgs]
             res.extra["applies_single"] += len(cfgs)
-        for c, g in zip(cfgs, gens):
+        batched = not any(isinstance(g, Exception) for g in gens) and res.extra["applies_batched"] > 0
+        for ci, (c, g) in enumerate(zip(cfgs, gens)):
             diffs = _evaluate(c, g, res)
             if diffs:
-                res.bad(c, diffs)
+                # the case records its siblings of the same apply(): what the rewriter derives may
+                # depend on the other insertions of the rewrite (e.g. a shared Patch object)
+                case = dict(c)
+                case["group"] = {"abi": abi, "clob": clob, "scratch": s, "reads": reads, "rest": [list(r) for r in rest], "index": ci}
+                res.bad(case, diffs)
             elif not isinstance(g, Exception) and len(res.samples) < 1:
                 res.sample({"cfg": c, "listing": mach.make(ABIS[abi]["machine"], g[0]).listing(), "stack_adjustment": g[2], "scratch": g[3]}, cap=1)
     return res
@@ -395,5 +408,19 @@ def run_task(task):
 
 def replay(case):
     quiet()
-    g = _single(case)
-    return _evaluate(case, g, None)
+    cfg = {k: v for k, v in case.items() if k != "group"}
+    grp = case.get("group")
+    if grp:
+        cfgs = [
+            {"abi": grp["abi"], "clob": grp["clob"], "flags": f, "align": al, "pcs": p, "scratch": grp["scratch"], "reads": grp["reads"], "where": w}
+            for f, al, p, w in grp["rest"]
+        ]
+        try:
+            g = _generate(cfgs)[grp["index"]]
+        except (HarnessError, mach.MachineError):
+            raise
+        except Exception:
+            g = _single(cfg)
+    else:
+        g = _single(cfg)
+    return _evaluate(cfg, g, None)
